@@ -115,6 +115,7 @@ fn key_info(kp: &KeyPair) -> R<Value> {
 		"type": kp.key_type.to_string(),
 		"pem": String::from_utf8_lossy(&pem),
 		"der_b64": b64s(&der),
+		"pkcs8_hex": hex(&kp.inner_key.private_key_to_pkcs8().map_err(e)?),
 		"pub_pem": String::from_utf8_lossy(&pubpem),
 		"pub_der_hex": hex(&pubder),
 		"jwk": kp.jwk_public_key().map_err(e)?.to_string(),
@@ -141,6 +142,15 @@ fn op_roundtrip(i: &Value) -> R<Value> {
 		"pem_equal": pem2 == kp.private_key_to_pem().map_err(e)?,
 		"pub_equal": kp.inner_key.public_eq(&kp3.inner_key) && kp.inner_key.public_eq(&kp2.inner_key),
 		"type_equal": kp.key_type == kp2.key_type && kp.key_type == kp3.key_type,
+		// the serialisations themselves (py/ext/pem.py): after from_pem, after from_der of that
+		"der_after_pem_hex": hex(&der),
+		"pkcs8_after_pem_hex": hex(&kp.inner_key.private_key_to_pkcs8().map_err(e)?),
+		"pub_der_after_pem_hex": hex(&kp.inner_key.public_key_to_der().map_err(e)?),
+		"pub_pem_after_pem": String::from_utf8_lossy(&kp.public_key_to_pem().map_err(e)?),
+		"der_after_der_hex": hex(&kp2.private_key_to_der().map_err(e)?),
+		"pkcs8_after_der_hex": hex(&kp2.inner_key.private_key_to_pkcs8().map_err(e)?),
+		"pub_der_after_der_hex": hex(&kp2.inner_key.public_key_to_der().map_err(e)?),
+		"pem_after_der": String::from_utf8_lossy(&pem2),
 	}))
 }
 
@@ -580,6 +590,21 @@ fn op_parse_cert(i: &Value) -> R<Value> {
 	}))
 }
 
+/// DER of every certificate OpenSSL reads from a PEM text (`X509::stack_from_pem`: anything that is
+/// not a block is skipped), or from raw bytes given as hex.
+fn op_cert_ders(i: &Value) -> R<Value> {
+	let data = match i["pem_hex"].as_str() {
+		Some(h) => unhex(h)?,
+		None => i["pem"].as_str().unwrap_or("").as_bytes().to_vec(),
+	};
+	let chain = X509::stack_from_pem(&data).map_err(e)?;
+	let mut ders = vec![];
+	for c in chain.iter() {
+		ders.push(hex(&c.to_der().map_err(e)?));
+	}
+	Ok(json!({"ders_hex": ders}))
+}
+
 fn op_pub_of_key(i: &Value) -> R<Value> {
 	let pk = PKey::private_key_from_pem(i["pem"].as_str().unwrap_or("").as_bytes()).map_err(e)?;
 	Ok(json!({"pub_der_hex": hex(&pk.public_key_to_der().map_err(e)?)}))
@@ -604,6 +629,7 @@ fn dispatch(i: &Value) -> Value {
 		"issue" => op_issue(i),
 		"selfsigned" => op_selfsigned(i),
 		"parse_cert" => op_parse_cert(i),
+		"cert_ders" => op_cert_ders(i),
 		"tls_chain" => op_tls_chain(i),
 		"pub_of_key" => op_pub_of_key(i),
 		"sha256" => op_sha256(i),
